@@ -96,7 +96,8 @@ Record tables := mkT {
   t_rearm_after_write : bool;
   t_rearm_delay_close : bool;
   t_rearm_wait : bool;
-  t_rearm_backend_wait : bool
+  t_rearm_backend_wait : bool;
+  t_h1_close_after_close : bool    (* h1.rs: a response with Connection: close ends the client connection *)
 }.
 
 (** * The hand mirror of the source (what the theorems are proved about) *)
@@ -154,7 +155,7 @@ Definition spec_known_codes : list N := [301; 302; 308; 400; 401; 404; 408; 421;
 Definition spec_tables : tables :=
   mkT spec_esd spec_connect 301 spec_ft spec_bt spec_end_arm
       [ESetState SUnlinked; EArm] [ESetState SUnlinked; EArm] spec_known_codes
-      3 true true true true true.
+      3 true true true true true true.
 
 (** * One stream and its frontend connection *)
 
@@ -330,6 +331,7 @@ Inductive input :=
 | IBackEnd                      (* response cleanly terminated *)
 | IBackNoKeepAlive              (* the response head announced a close-delimited body *)
 | IBackClose                    (* backend connection lost: end_stream on the server side *)
+| IBackGarbage                  (* backend bytes that do not parse: kawa error, then end_stream *)
 | IFrontWrite (all : bool)      (* writable pass on the frontend; all = queue fully drained *)
 | IFrontTimeout
 | IBackTimeout
@@ -356,6 +358,26 @@ Definition after_timeout (T : tables) (o : outcome) : stream * conn * list ev :=
       else (s, set_closed c, o_ev o ++ [EvClose])
   else
     (s, set_timers c (c_ftimer c || t_rearm_wait T) (c_btimer c), o_ev o ++ [EvWait]).
+
+(** the server side of end_stream: the backend connection of a Linked stream is gone *)
+Definition back_lost (T : tables) (redir : option N) (s : stream) (c : conn) : stream * conn * list ev :=
+  match s_state s with
+  | SLinked =>
+    match esd T c s with
+    | Some a =>
+      let var := match a with ASendDefault n => n | _ => 0 end in
+      let s0 := match a with ACloseDelimited => set_clean s (negb (s_ka s)) | _ => s end in
+      let o := apply_effs T var redir (t_end_arm T (c_h2 c) (tag_of a))
+                          (mkO s0 (set_timers c (c_ftimer c) false) [] false false) in
+      (* H1 CloseDelimited: the EOF already terminated the kawa in readable() *)
+      let s1 := match a with
+                | ACloseDelimited => set_back (o_s o) PTerminated (s_bcons (o_s o)) true (s_origin (o_s o))
+                | _ => o_s o end in
+      (s1, o_c o, o_ev o)
+    | None => (s, c, [])
+    end
+  | _ => (s, c, [])
+  end.
 
 Definition step (T : tables) (redir : option N) (sc : stream * conn) (i : input) : stream * conn * list ev :=
   let '(s, c) := sc in
@@ -411,22 +433,14 @@ Definition step (T : tables) (redir : option N) (sc : stream * conn) (i : input)
       (set_clean (set_back s PTerminated (s_bcons s) true OBackend) true, set_arm c true true, [])
     | _, _ => (s, c, [])
     end
-  | IBackClose =>
+  | IBackClose => back_lost T redir s c
+  | IBackGarbage =>
     match s_state s with
     | SLinked =>
-      match esd T c s with
-      | Some a =>
-        let var := match a with ASendDefault n => n | _ => 0 end in
-        let s0 := match a with ACloseDelimited => set_clean s (negb (s_ka s)) | _ => s end in
-        let o := apply_effs T var redir (t_end_arm T (c_h2 c) (tag_of a))
-                            (mkO s0 (set_timers c (c_ftimer c) false) [] false false) in
-        (* H1 CloseDelimited: the EOF already terminated the kawa in readable() *)
-        let s1 := match a with
-                  | ACloseDelimited => set_back (o_s o) PTerminated (s_bcons (o_s o)) true (s_origin (o_s o))
-                  | _ => o_s o end in
-        (s1, o_c o, o_ev o)
-      | None => (s, c, [])
-      end
+      (* body bytes are not parsed as HTTP; a backend that speaks before it has been sent
+         anything is outside the alphabet *)
+      if is_main_phase (s_phase s) || negb (s_fcons s) then (s, c, [])
+      else back_lost T redir (set_back s PError (s_bcons s) (s_pending s) OBackend) c
     | _ => (s, c, [])
     end
   | IFrontWrite all =>
@@ -441,7 +455,12 @@ Definition step (T : tables) (redir : option N) (sc : stream * conn) (i : input)
         if is_terminated (s_phase s) then
           (* response complete: access log, then keep-alive reset, stream recycle or close *)
           match s_origin s with
-          | OBackend => (fresh, set_arm c false (c_ev_w c), evs0 ++ [EvRelayEnd; EvRecycle])
+          | OBackend =>
+            (* h1.rs writable: keep-alive reset only if neither side asked to close; an H2
+               frontend recycles the stream and keeps the connection *)
+            if c_h2 c || s_ka s || negb (t_h1_close_after_close T) then
+              (fresh, set_arm c false (c_ev_w c), evs0 ++ [EvRelayEnd; EvRecycle])
+            else (set_done s1 true, set_closed c, evs0 ++ [EvRelayEnd; EvClose])
           | _ =>
             if c_h2 c then (fresh, set_arm c false (c_ev_w c), evs0 ++ [EvDefaultSent; EvRecycle])
             else (s1, set_closed c, evs0 ++ [EvDefaultSent; EvClose])
@@ -451,7 +470,11 @@ Definition step (T : tables) (redir : option N) (sc : stream * conn) (i : input)
     else
       if is_error (s_phase s) then
         (* the forced termination reaches the wire: RST_STREAM (H2, stream recycled) / close (H1) *)
-        if c_h2 c then (fresh, set_arm c false (c_ev_w c), [EvRecycle]) else (s, set_closed c, [EvClose])
+        if c_h2 c then (fresh, set_arm c false (c_ev_w c), [EvRecycle])
+        else
+          (* H1: nothing to write, WRITABLE interest is dropped; the connection is closed by
+             the frontend timer (stream Unlinked and completed) *)
+          (s, set_arm c false (c_ev_w c), [])
       else (s, set_arm c false (c_ev_w c), [])
   | IFrontTimeout =>
     if negb (c_ftimer c) then (s, c, []) else
